@@ -7,6 +7,8 @@
 (*   Build            a fresh package: unsigned, digests true               *)
 (*   Sign(k) / Clear  replace the signature header; its header digest is    *)
 (*                    recomputed over the main header *as it is now*        *)
+(*   SignFail         a signing operation that fails (the signer refuses,   *)
+(*                    a wrong passphrase): the package is as it was         *)
 (*   Reparse          write + parse: nothing changes                        *)
 (*   TamperHeader     a byte of the main header's store is altered in the   *)
 (*                    written file (the package still parses)               *)
@@ -27,6 +29,7 @@ RInit == signer = "none" /\ hdrDirty = FALSE /\ payDirty = FALSE /\ steps = 0
 
 Sign(k)       == signer' = k /\ hdrDirty' = FALSE /\ UNCHANGED payDirty /\ steps' = steps + 1
 Clear         == signer' = "none" /\ hdrDirty' = FALSE /\ UNCHANGED payDirty /\ steps' = steps + 1
+SignFail      == UNCHANGED <<signer, hdrDirty, payDirty>> /\ steps' = steps + 1
 Reparse       == UNCHANGED <<signer, hdrDirty, payDirty>> /\ steps' = steps + 1
 TamperHeader  == hdrDirty' = TRUE /\ UNCHANGED <<signer, payDirty>> /\ steps' = steps + 1
 TamperPayload == payDirty' = TRUE /\ UNCHANGED <<signer, hdrDirty>> /\ steps' = steps + 1
@@ -34,7 +37,9 @@ TamperPayload == payDirty' = TRUE /\ UNCHANGED <<signer, hdrDirty>> /\ steps' = 
 \* what every observation must report in a state
 DigestsOk      == ~hdrDirty /\ ~payDirty
 Verifies(k)    == signer = k /\ DigestsOk
-Obs == [digests_ok |-> DigestsOk, verifies |-> [k \in Keys |-> Verifies(k)]]
+\* the header digest recorded in the signature header is the digest of the header as it is now
+HdrDigestTrue  == ~hdrDirty
+Obs == [digests_ok |-> DigestsOk, verifies |-> [k \in Keys |-> Verifies(k)], hdr_digest_true |-> HdrDigestTrue]
 
 \* consequences (checked by MC_Rpm on all histories)
 NoVerifyWhenTampered == (hdrDirty \/ payDirty) => \A k \in Keys : ~Verifies(k)
